@@ -49,6 +49,15 @@ SCENARIOS = {
                            disk='1G', maxutil=1, adj=10),
                     _alloc('proid/z', 'pB', [('proid.db*', 5)], mem='2G', cpu='200%', disk='2G',
                            maxutil=2)],
+                   # a PARENT allocation with a cap of its own (it has no instances itself):
+                   # the cap is about its direct instances, not about its sub-allocations
+                   [_alloc('proid', '_default', [], mem='1G', cpu='100%', disk='1G', maxutil=1),
+                    _alloc('proid/x', '_default', [('proid.web*', 1)]),
+                    _alloc('proid/z', 'pB', [('proid.db*', 5)])],
+                   # rank 0 (the best legal rank) with a reservation
+                   [_alloc('proid/x', '_default', [('proid.web*', 1)], rank=0, mem='2G', cpu='200%',
+                           disk='2G'),
+                    _alloc('proid/z', 'pB', [('proid.db*', 5)], rank=0, adj=0)],
                    # the first document with nothing but the assignment priorities changed
                    [_alloc('proid/x', '_default', [('proid.web*', 9)]),
                     _alloc('proid/z', 'pB', [('proid.db*', 2)])]],
